@@ -254,7 +254,8 @@ def signature(c, why):
     # length: nothing in Decoder.process compares the two, and the excess swallows the following messages
     by_off = {o: i for i, o in enumerate(c.offs)}
     sig['overlong_damaged_delivery'] = any(
-        o in by_off and c.dmg[by_off[o]] is not None and len(it) > len(c.cur[by_off[o]])
+        o in by_off and c.dmg[by_off[o]] is not None and fault_class(c.dmg[by_off[o]][0]) == 'length'
+        and len(it) > len(c.cur[by_off[o]])
         for it, o in zip(items, locate_items(c.s, items)))
     if why.startswith('a non-library exception') and out == 'err:other':
         sig.update(S.LAST_EXC)
@@ -401,11 +402,19 @@ def truncation_message(treq, b, label, seed, points=None):
                              {'message_hex': b.hex(), 'cut': k, 'info_only': io_, 'label': label},
                              {'stage': 'truncation', 'what': 'model differs', 'info_only': io_}))
     # trailing bytes
-    fam, m0 = decode_family(dec, b, False)
+    fam, m0 = decode_family(Decoder(), b, False)
     if fam != 'ok':
         return {'machinery': 'valid message does not decode: %s' % label}
     v0 = values_of(m0)
     ntrail = 0
+    # `dec` has by now decoded every prefix, full and metadata-only, and failed on nearly all of them
+    fam, m1 = decode_family(dec, b, False)
+    if fam != 'ok' or m1.serialized_bytes != b or values_of(m1) != v0:
+        viol.append(('history: after decoding every prefix of a message (full and metadata-only) on one Decoder, the complete '
+                     'message gives %s on it; on a fresh Decoder it decodes' % (fam if fam != 'ok' else 'a different result'),
+                     {'message_hex': b.hex(), 'label': label, 'history': 'all prefixes, full and info-only alternating'},
+                     {'stage': 'history', 'op': 'truncation', 'shared': fam, 'fresh': 'ok'}))
+        return {'fams': fams, 'violations': viol[:5], 'traces': 2 * len(ks), 'trailing': 0}
     for t in (b'\0', b'7777', b'BUFR', b'BUF', S.noise(rng, 9), b, b[:len(b) // 2], b'\xff' * 5):
         fam, m1 = decode_family(dec, b + t, False)
         ntrail += 1
